@@ -1192,11 +1192,12 @@ impl TDigestView<'_> {
                 }
                 let w1 = weight - weight_so_far - left_weight;
                 let w2 = weight_so_far + dw - weight - right_weight;
+                // each mean is weighted by the distance to the *other* centroid
                 return Some(weighted_average(
                     self.centroids[i].mean,
-                    w1,
-                    self.centroids[i + 1].mean,
                     w2,
+                    self.centroids[i + 1].mean,
+                    w1,
                 ));
             }
             weight_so_far += dw;
